@@ -52,6 +52,36 @@ def _libcst_signature() -> Optional[List[str]]:
     return None
 
 
+def overwrite_by_strategy(repo: Repo) -> Dict[str, Tuple[Any, Any]]:
+    """strategy member -> (value apply_stub_handler binds to apply_stub_using_libcst's overwrite flag, expected value)"""
+    from .glue_model import bind_values
+    ah = repo.fn(CLI, "apply_stub_handler")
+    callee = repo.fn(CLI, "apply_stub_using_libcst")
+    ps = ah.positional_params()
+    out: Dict[str, Tuple[Any, Any]] = {}
+    for member in ("IGNORE", "REPLICATE", "OMIT"):
+        got: List[Any] = []
+
+        def hook(call, fname, fval, args, kwargs, st, _g=got):
+            d = fname or ""
+            m = call.func.attr if isinstance(call.func, ast.Attribute) else None
+            if d == "get_stub":
+                return R("stubobj")
+            if d == "apply_stub_using_libcst":
+                _g.append(st.freeze(bind_values(callee, args, kwargs).get("overwrite_existing_annotations", K("<missing>"))))
+                return R("new_source")
+            if d in ("importlib.import_module", "inspect.getfile", "Path", "print") or m in ("read_text", "write_text", "render"):
+                return R("opaque", what=K(d or m))
+            return None
+
+        sc = CliScenario(repo, CLI, "apply_stub_handler", hook=hook, inline_all=True)
+        token = sc.ri.interp.eval(ast.parse("ExistingAnnotationStrategy." + member, mode="eval").body, State())
+        args_rec = R("args", module_path=K((K("pkg.mod"), K(None))), existing_annotation_strategy=token, pep_563=S("the-flag"))
+        sc.run({ps[0]: args_rec, ps[1]: K("stdout"), ps[2]: K("stderr")})
+        out[member] = (got[0] if len(got) == 1 else f"{len(got)} apply calls", K(member == "IGNORE"))
+    return out
+
+
 def rule_binding(ctx: Ctx, repo: Repo) -> None:
     fi = repo.fn(CLI, "apply_stub_using_libcst")
     ctx.functions.add(fi.fq)
@@ -107,7 +137,8 @@ def rule_write(ctx: Ctx, repo: Repo) -> None:
                 if m == "render" and isinstance(fval, R) and fval.kind == "stubobj":
                     return R("rendered", of=fval)
                 if d == "apply_stub_using_libcst":
-                    _e.append(("apply", tuple(st.freeze(a) for a in args), tuple(sorted((k, st.freeze(v)) for k, v in kwargs.items()))))
+                    from .glue_model import bind_values
+                    _e.append(("apply", (), tuple(sorted((k, st.freeze(v)) for k, v in bind_values(repo.fn(CLI, "apply_stub_using_libcst"), args, kwargs).items()))))
                     if _f:
                         st.pending = st.pending or "HandlerError"
                         return U("failed")
@@ -151,40 +182,55 @@ def rule_write(ctx: Ctx, repo: Repo) -> None:
                           "the file is written exactly once, at the same path, with exactly what the transformer returned", construct=f"{lab}: {writes}")
                 order = [e[0] for e in eff if e[0] in ("read", "apply", "write")]
                 ctx.check(order == ["read", "apply", "write"], "R-C15.2", ah.fq, "read, transform, then write", construct=f"{order}")
-    # the overwrite flag expression
-    cs = [c for c in calls_in(ah.node) if dotted(c.func) == "apply_stub_using_libcst"]
-    callee = repo.fn(CLI, "apply_stub_using_libcst")
-    for c in cs:
-        a = bound_argument(callee, c, "overwrite_existing_annotations")
-        ok = a is not None and isinstance(a, ast.Compare) and len(a.ops) == 1 and isinstance(a.ops[0], ast.Eq) and \
-            {norm(a.left), norm(a.comparators[0])} == {"args.existing_annotation_strategy", "ExistingAnnotationStrategy.IGNORE"}
-        ctx.check(ok, "R-C15.1", ah.fq, "existing annotations are overwritten exactly when the ignore option was given", construct=norm(a) if a is not None else "<missing>")
-    # no other writer in cli.py
-    mod = repo.module(CLI)
-    for fi in mod.functions.values():
-        for c in calls_in(fi.node):
-            m = c.func.attr if isinstance(c.func, ast.Attribute) else None
-            if m in ("write_text", "write_bytes", "unlink") or dotted(c.func) in ("open", "os.remove", "shutil.move"):
-                ctx.check(fi.qualname == "apply_stub_handler" and m == "write_text", "R-C15.2", fi.fq, "apply_stub_handler is the only writer of source files", construct=norm(c), node=c)
+    # the overwrite flag: interpreted for each strategy the parser can store
+    for flag, want in overwrite_by_strategy(repo).items():
+        ctx.check(want[0] == want[1], "R-C15.1", ah.fq, "existing annotations are overwritten exactly when the ignore option was given",
+                  construct=f"strategy {flag}: overwrite_existing_annotations={want[0]}, expected {want[1]}")
+
 
 
 def rule_transformers(ctx: Ctx, repo: Repo) -> None:
+    """apply_stub_using_libcst interpreted with the confinement flag off/on: the sequence of libcst transformations
+    applied to the source module (any spelling: helpers, locals ...)"""
     fi = repo.fn(CLI, "apply_stub_using_libcst")
-    names = set()
-    for c in calls_in(fi.node):
-        if isinstance(c.func, ast.Attribute) and c.func.attr in ("transform_module", "visit", "transform_module_impl"):
-            g = cfg_of(fi)
-            n = g.node_of(c)
-            for r, _, _ in (g.origins(c.func.value, n.id) if n else []):
-                names.add(dotted(r.func) if isinstance(r, ast.Call) else norm(r))
-    ctx.check(names == {"ApplyTypeAnnotationsVisitor", "MoveImportsToTypeCheckingBlockVisitor"}, "R-C15.3", fi.fq,
-              "the source is transformed by ApplyTypeAnnotationsVisitor and MoveImportsToTypeCheckingBlockVisitor only", construct=str(sorted(n for n in names if n)))
-    mv = [c for c in calls_in(fi.node) if dotted(c.func) == "MoveImportsToTypeCheckingBlockVisitor"]
-    g = cfg_of(fi)
-    for c in mv:
-        n = g.node_of(c)
-        gs = [(norm(a.ast), pol) for a, pol in g.guards(n.id)] if n else []
-        ctx.check((fi.positional_params()[3], True) in gs, "R-C15.3", fi.fq, "the import mover runs only with the confinement flag", construct=f"{gs}")
+    ps = fi.positional_params()
+    for flag in (False, True):
+        tr: List[Tuple[str, Any]] = []
+
+        def hook(call, fname, fval, args, kwargs, st, _t=tr):
+            m = call.func.attr if isinstance(call.func, ast.Attribute) else None
+            d = fname or ""
+            last = d.split(".")[-1]
+            if d == "parse_module":
+                return R("module", of=args[0])
+            if d == "CodemodContext":
+                return R("context")
+            if d.endswith("store_stub_in_context") or d.endswith("store_imports_in_context"):
+                return K(None)
+            if d == "get_newly_imported_items":
+                return R("list", items=())
+            if last.endswith(("Visitor", "Transformer", "Codemod", "Command")) and isinstance(call.func, (ast.Name, ast.Attribute)) and last[:1].isupper():
+                return R("visitor", what=K(last))
+            if m in ("transform_module", "transform_module_impl", "visit") and isinstance(fval, R) and fval.kind == "visitor":
+                _t.append((fval.fields["what"].v, st.freeze(args[0]) if args else None))
+                return R("transformed", by=fval.fields["what"], of=st.freeze(args[0]) if args else K(None))
+            if m == "visit" and isinstance(fval, R) and fval.kind in ("module", "transformed") and args and isinstance(args[0], R) and args[0].kind == "visitor":
+                _t.append((args[0].fields["what"].v, st.freeze(fval)))
+                return R("transformed", by=args[0].fields["what"], of=st.freeze(fval))
+            return None
+
+        sc = CliScenario(repo, CLI, "apply_stub_using_libcst", hook=hook)
+        k, res = sc.result({ps[0]: S("stub"), ps[1]: S("source"), ps[2]: S("overwrite"), ps[3]: K(flag)})
+        src = R("module", of=S("source"))
+        want = [("ApplyTypeAnnotationsVisitor", src)]
+        if flag:
+            want.append(("MoveImportsToTypeCheckingBlockVisitor", R("transformed", by=K("ApplyTypeAnnotationsVisitor"), of=src)))
+        ctx.check(tr == want, "R-C15.3", fi.fq,
+                  "the source is transformed by ApplyTypeAnnotationsVisitor and (only with the confinement flag) MoveImportsToTypeCheckingBlockVisitor, nothing else",
+                  construct=f"confine={flag}: {[t[0] for t in tr]}")
+        final = R("opaque", of=R("transformed", by=K(want[-1][0]), of=want[-1][1]), attr=K("code"))
+        ctx.check(k == "return" and res == final, "R-C15.3", fi.fq, "the result is the code of the last of these transformations, unedited",
+                  construct=f"confine={flag}: {k} {str(res)[:140]}")
 
 
 def run(ctx: Ctx, repo: Repo, tier: str) -> None:
